@@ -1,10 +1,230 @@
 /- line-protocol handlers for Model/HandText.lean.  All commands are prefixed `ht.`. -/
 import FontVerif.Model.HandText
+import FontVerif.Drv.C01Iter
 namespace FontVerif.Drv.C01HandText
 open FontVerif FontVerif.ReadIter FontVerif.HandRead FontVerif.HandText
 
+def joinStrs (xs : List String) : String := if xs.isEmpty then "-" else " ".intercalate xs
+
+/-- split a token list at every "|" -/
+def splitBars (xs : List String) : List (List String) :=
+  let r := xs.foldr (fun x (acc : List String × List (List String)) =>
+    if x = "|" then ([], acc.1 :: acc.2) else (x :: acc.1, acc.2)) ([], [])
+  r.1 :: r.2
+
+def natsOrEmpty (xs : List String) : Option (List Nat) := if xs = ["-"] then some [] else parseNats? xs
+
+/-- a comma separated list of integers in one token (`-` = empty) -/
+def commaInts (s : String) : Option (List Int) :=
+  if s = "-" then some [] else parseInts? (s.splitOn ",")
+
+def commaNats (s : String) : Option (List Nat) :=
+  if s = "-" then some [] else parseNats? (s.splitOn ",")
+
+def pairs : List Nat → Option (List (Nat × Nat))
+  | [] => some []
+  | a :: b :: r => (pairs r).map ((a, b) :: ·)
+  | _ => none
+
+def groups : List Nat → Option (List Group)
+  | [] => some []
+  | a :: b :: c :: r => (groups r).map (⟨a, b, c⟩ :: ·)
+  | _ => none
+
+def mapStr : MapRes → String
+  | .gid g => toString g
+  | .none => "n"
+  | .trap => "trap"
+  | .fuel => "fuel"
+
+/-- `x2 end start delta rangeOffset glyphs` (five comma lists) -/
+def parse4 : List String → Option (Cmap4 × Nat)
+  | [x2, e, s, d, r, g] =>
+    match x2.toNat?, commaNats e, commaNats s, commaInts d, commaNats r, commaNats g with
+    | some x2, some e, some s, some d, some r, some g =>
+      let t : Cmap4 := { endCode := e, startCode := s, idDelta := d, idRangeOffset := r, glyphIdArray := g }
+      if t.wf && decide (x2 < 65536) then some (t, x2) else none
+    | _, _, _, _, _, _ => none
+  | _ => none
+
+def parse12 (xs : List String) : Option (List Group) :=
+  match (natsOrEmpty xs).bind groups with
+  | some gs => if gs.all Group.wf then some gs else none
+  | none => none
+
+def parseSub : List String → Option Sub
+  | ["o"] => some .other
+  | ["e"] => some .err
+  | "4" :: rest => (parse4 rest).map (fun p => .f4 p.1 p.2)
+  | "12" :: rest => (parse12 (if rest.isEmpty then ["-"] else rest)).map .f12
+  | _ => none
+
+/-- an optional table in one token: `x` = absent / unreadable, else comma separated pairs -/
+def optPairs (s : String) : Option (Option (List (Nat × Nat))) :=
+  if s = "x" then some none else ((commaNats s).bind pairs).map some
+
+/-- selector records: three tokens each (`selector defaults nonDefaults`); `-` = no record -/
+def parseSels : List String → Option (List Cmap.VarSel)
+  | [] => some []
+  | ["-"] => some []
+  | s :: d :: n :: rest =>
+    match s.toNat?, optPairs d, optPairs n, parseSels rest with
+    | some s, some d, some n, some r => some (⟨s, d, n⟩ :: r)
+    | _, _, _, _ => none
+  | _ => none
+
+def mvCode : Cmap.MapVariant → Nat
+  | .useDefault => 1
+  | .variant g => 2 + g
+
+def mvStr : Option Cmap.MapVariant → String
+  | none => "n"
+  | some .useDefault => "d"
+  | some (.variant g) => s!"v{g}"
+
+/-- insertion into a strictly ascending list -/
+def insertSorted (x : Nat) : List Nat → List Nat
+  | [] => [x]
+  | y :: r => if x < y then x :: y :: r else if x = y then y :: r else y :: insertSorted x r
+
+def sortDedup (xs : List Nat) : List Nat := xs.foldl (fun acc x => insertSorted x acc) []
+
+def encOf (p e : Nat) : NameStr.Encoding := NameStr.Encoding.new p e
+
+def encStr : NameStr.Encoding → String
+  | .utf16be => "u"
+  | .macRoman => "m"
+  | .unknown => "x"
+
+def charsStr (enc : NameStr.Encoding) (d : List Nat) : String :=
+  match charTrace enc d with
+  | none => "fuel"
+  | some evs => if trapped evs then "trap" else joinNats (items evs)
+
+def pstrStr : PStr → String
+  | .ok s => s!"x{toHex s}"
+  | .oob => "eO"
+  | .malformed => "eM"
+  | .trap => "trap"
+
+def gnameStr : GName → String
+  | .std i => s!"s{i}"
+  | .str b => s!"x{toHex b}"
+  | .none => "n"
+  | .trap => "trap"
+
 def handle (cmd : String) (args : List String) : Option String :=
-  match cmd, args with
-  | _, _ => none
+  match cmd with
+  | "ht.map4" =>
+    match splitBars args with
+    | [tab, cps] =>
+      match parse4 tab, natsOrEmpty cps with
+      | some (t, x2), some cps => some (joinStrs (cps.map (fun c => mapStr (map4 t x2 c))))
+      | _, _ => none
+    | _ => none
+  | "ht.map12" =>
+    match splitBars args with
+    | [tab, cps] =>
+      match parse12 tab, natsOrEmpty cps with
+      | some gs, some cps => some (joinStrs (cps.map (fun c => mapStr (map12 gs c))))
+      | _, _ => none
+    | _ => none
+  | "ht.cmap" =>
+    match splitBars args with
+    | cps :: subs =>
+      match natsOrEmpty cps, subs.mapM parseSub with
+      | some cps, some subs => some (joinStrs (cps.map (fun c => mapStr (cmapMap subs c))))
+      | _, _ => none
+    | _ => none
+  | "ht.mv14" =>
+    match splitBars args with
+    | [tab, sels, cps] =>
+      match parseSels tab, natsOrEmpty sels, natsOrEmpty cps with
+      | some t, some sels, some cps =>
+        some (joinStrs (sels.flatMap (fun s => cps.map (fun c => mvStr (Cmap.mapVariant t c s)))))
+      | _, _, _ => none
+    | _ => none
+  | "ht.it14" =>
+    match parseSels args with
+    | none => none
+    | some t =>
+      match c14Trace t with
+      | none => some "fuel"
+      | some evs =>
+        if trapped evs then some "trap"
+        else some (Drv.C01Iter.summary ((items evs).map (fun x => [x.1, x.2.1, mvCode x.2.2])))
+  | "ht.clo14" =>
+    match splitBars args with
+    | [tab, us] =>
+      match parseSels tab, natsOrEmpty us with
+      | some t, some us => some (joinNats (sortDedup (closure14 t (fun c => us.contains c))))
+      | _, _ => none
+    | _ => none
+  | "ht.cmapclo" =>
+    match splitBars args with
+    | us :: subs =>
+      let parseOpt := fun (xs : List String) =>
+        if xs = ["x"] then some (none : Option (List Cmap.VarSel)) else (parseSels xs).map some
+      match natsOrEmpty us, subs.mapM parseOpt with
+      | some us, some subs => some (joinNats (sortDedup (cmapClosure subs (fun c => us.contains c))))
+      | _, _ => none
+    | _ => none
+  | "ht.name" =>
+    match args with
+    | [pid, eid, off, len, hex] =>
+      match pid.toNat?, eid.toNat?, off.toNat?, len.toNat?, parseHex? hex with
+      | some pid, some eid, some off, some len, some d =>
+        match nameSlice d.length off len with
+        | .oob => some "oob"
+        | .trap => some "trap"
+        | .ok a b =>
+          let enc := encOf pid eid
+          some s!"{a}:{b} {encStr enc} {charsStr enc ((d.drop a).take (b - a))}"
+      | _, _, _, _, _ => none
+    | _ => none
+  | "ht.sdata" =>
+    match args with
+    | [len, off] =>
+      match len.toNat?, off.toNat? with
+      | some len, some off => some (toString (stringDataLen (List.replicate len 0) off))
+      | _, _ => none
+    | _ => none
+  | "ht.macdec" =>
+    match natsOrEmpty args with
+    | some bs =>
+      if bs.all (· < 256) then
+        some (joinStrs (bs.map (fun b => match macDecodeT b with | some v => toString v | none => "trap")))
+      else none
+    | none => none
+  | "ht.macenc" =>
+    match natsOrEmpty args with
+    | some cs =>
+      some (joinStrs (cs.map (fun c => match macEncodeT c with
+        | some (some b) => toString b | some none => "n" | none => "trap")))
+    | none => none
+  | "ht.enc" =>
+    match args with
+    | [p, e] =>
+      match p.toNat?, e.toNat? with
+      | some p, some e => some (encStr (encOf p e))
+      | _, _ => none
+    | _ => none
+  | "ht.pstr" =>
+    match args with
+    | [hex] => (parseHex? hex).map (fun d => pstrStr (pstringRead d))
+    | _ => none
+  | "ht.post" =>
+    match splitBars args with
+    | [[hex], gids] =>
+      match parseHex? hex, natsOrEmpty gids with
+      | some d, some gids =>
+        match postRead d with
+        | none => some "err"
+        | some t =>
+          let nn := match numNames t with | .val n => toString n | .trap => "trap"
+          some s!"{nn} {joinStrs (gids.map (fun g => gnameStr (glyphName t g)))}"
+      | _, _ => none
+    | _ => none
+  | _ => none
 
 end FontVerif.Drv.C01HandText
